@@ -20,6 +20,7 @@ from vlib.core import *
 SPEC = os.path.join(VERIF, "specs", "ReadAuth")
 HARNESS = ["harness/rest/c02_readauth_test.go"]
 PROPERTY_INVS = ("NoLeak", "StubOnly", "NoExistenceLeak", "Available")
+BLIP_SLICE = 12
 
 
 def run(ctx):
@@ -34,12 +35,17 @@ def run(ctx):
     rnd = random.Random(ctx.seed)
     runs = []
     if ctx.quick():
-        runs.append(("rest", select(cases, rnd, 110), {}))
+        # REST surfaces on 110 cases; the first BLIP_SLICE of them (documents that left a user's channels, superseded,
+        # tombstoned) are also pulled over the replication protocol (v3, v2, v3/v4 with revocations=true), both cache passes
+        front = removal_slice(cases, rnd, BLIP_SLICE)
+        rest = [c for c in select(cases, rnd, 110) if c not in front][:110 - len(front)]
+        runs.append(("rest", front + rest, {"VERIF_C02_BLIP": "also:%d" % len(front)}))
     else:
         runs.append(("rest", select(cases, rnd, 700), {}))
         runs.append(("rest-fullflags", select(cases, rnd, 140), {"VERIF_C02_FLAGS": "full"}))
         runs.append(("rest-defaultcollection", select(cases, rnd, 200), {"VERIF_C02_DEFAULT_COLLECTION": "1"}))
-        runs.append(("blip", select(cases, rnd, 150), {"VERIF_C02_BLIP": "1"}))
+        front = removal_slice(cases, rnd, 50)
+        runs.append(("blip", front + [c for c in select(cases, rnd, 110) if c not in front][:60], {"VERIF_C02_BLIP": "1"}))
     tot = collections.Counter()
     for name, sel, env in runs:
         host_and_validate(ctx, name, sel, env, tot)
@@ -109,6 +115,43 @@ def select(cases, rnd, k):
             take(i, c)
     rnd.shuffle(chosen)
     return chosen
+
+
+def removal_slice(cases, rnd, k):
+    """cases (linear trees only, so current = last written) for the replication-protocol slice: mostly documents whose
+    current revision LEFT a channel through which some user could read an earlier revision (the puller is told about the
+    removal and requests that revision), plus tombstoned / plainly superseded / single-revision ones.  Used only to pick
+    inputs; what is right or wrong is decided by TLC on the recorded events."""
+    def chans(c, u):
+        usr = c["users"][u]
+        return set(usr["direct"]) | (set(c["role"]) if usr["inRole"] else set()) | {"!"}
+
+    def lost(c):
+        last = c["revs"][-1]
+        if last["del"]:
+            return False
+        for u in c["users"]:
+            uc = chans(c, u)
+            if "*" in uc or set(last["chans"]) & uc:
+                continue
+            if any(set(r["chans"]) & uc for r in c["revs"][:-1]):
+                return True
+        return False
+
+    order = [c for c in cases if c["shape"] in ("single", "chain2", "chain3", "tomb")]
+    rnd.shuffle(order)
+    quota = [("chain2", True, k // 2), ("chain3", True, max(1, k // 6)), ("tomb", False, max(1, k // 6)), ("chain2", False, 1), ("single", False, 1)]
+    out = []
+    for shape, want_lost, n in quota:
+        got = 0
+        for c in order:
+            if got < n and c not in out and c["shape"] == shape and lost(c) == want_lost:
+                out.append(c)
+                got += 1
+    for c in order:
+        if len(out) < k and c not in out and lost(c):
+            out.append(c)
+    return out[:k]
 
 
 def host_and_validate(ctx, name, cases, env, tot):
